@@ -7,6 +7,7 @@ pub mod c05;
 pub mod c06;
 pub mod c07;
 pub mod c08;
+pub mod c10;
 pub mod renderutil;
 pub mod c11;
 pub mod c13;
@@ -28,6 +29,7 @@ pub fn lookup(id: &str) -> Option<&'static dyn Prop> {
         "C06" => &c06::C06,
         "C07" => &c07::C07,
         "C08" => &c08::C08,
+        "C10" => &c10::C10,
         "C11" => &c11::C11,
         "C13" => &c13::C13,
         "C15" => &c15::C15,
